@@ -82,6 +82,10 @@ pub fn run_count(c: &CntCase, work: &str, uid: &str, pre_dir: Option<&str>) -> C
         cc.set_max_memory(c.mem);
         cc.set_acgt_output(c.acgt);
         cc.count();
+        if stale_case(&format!("count twice {}", c.req())) {
+            // a second `count()` on the same object finds the reader exhausted and must change nothing
+            cc.count();
+        }
         layout = cc.verif_layout();
         cc.merge(true);
     }));
@@ -310,6 +314,9 @@ pub fn eval_history(h: &CntHistory, model: &Model, work: &str, uid: &str) -> Opt
             cc.set_acgt_output(st.case.acgt);
             if !(st.reuse && st.merge_only) {
                 cc.count();
+                if stale_case(&format!("count twice {} {}", i, st.case.req())) {
+                    cc.count();
+                }
             }
             cc.merge(st.delete);
         }
